@@ -140,8 +140,9 @@ class PauliStringLinear(PauliString):
         other_simplified = other.simplify()
 
         # Create dictionaries for easy lookup: {pauli_str: coefficient}
-        self_dict = {str(p): c for c, p in self_simplified.combinations}
-        other_dict = {str(p): c for c, p in other_simplified.combinations}
+        # (zero terms are dropped: the zero operator has several spellings)
+        self_dict = {str(p): c for c, p in self_simplified.combinations if abs(c) > 1e-12}
+        other_dict = {str(p): c for c, p in other_simplified.combinations if abs(c) > 1e-12}
 
         # Check if they have the same Pauli string terms
         if self_dict.keys() != other_dict.keys():
